@@ -696,14 +696,13 @@ func (o *oracle) evaluate(r *rig, k *tmi.VerifKState, prev *tmi.VerifKState, sit
 			continue
 		}
 		vsID := o.chainVS(x.H)
+		pvVS, pcVS := vsID, vsID
 		suffix := ""
 		if vsID == "" {
 			// a future height whose set is not determined yet: the votes were verified against the
-			// set named by the message; they must at least verify under that set
-			vsID = w.PKHID(string(pv.PubKeyHash))
-			if len(pv.BlockSignatures) == 0 {
-				vsID = w.PKHID(string(pc.PubKeyHash))
-			}
+			// set named by the message; they must at least verify under that set (prevotes and precommits
+			// are separate collections, each with the hash it was filed under)
+			pvVS, pcVS = w.PKHID(string(pv.PubKeyHash)), w.PKHID(string(pc.PubKeyHash))
 			if o.filedEarly == nil {
 				o.filedEarly = map[hr]struct{}{}
 			}
@@ -712,8 +711,8 @@ func (o *oracle) evaluate(r *rig, k *tmi.VerifKState, prev *tmi.VerifKState, sit
 			// filed while the height's validator set was still undetermined
 			suffix = ":filed-before-set-known"
 		}
-		o.checkSparse("roundStore.prevotes"+suffix, "prevote", x.H, x.R, vsID, pv.BlockSignatures, site, out)
-		o.checkSparse("roundStore.precommits"+suffix, "precommit", x.H, x.R, vsID, pc.BlockSignatures, site, out)
+		o.checkSparse("roundStore.prevotes"+suffix, "prevote", x.H, x.R, pvVS, pv.BlockSignatures, site, out)
+		o.checkSparse("roundStore.precommits"+suffix, "precommit", x.H, x.R, pcVS, pc.BlockSignatures, site, out)
 		for hash, sigs := range pv.BlockSignatures {
 			if len(sigs) == 0 {
 				*out = append(*out, viol{"C05", "AllFiledAuthentic", site, "roundStore.emptyEntry",
